@@ -1,7 +1,7 @@
 import BfeVerif.C08.Proofs
 /-!
   C08 — retries are safe and bounded.  Property theorems only (helper lemmas are in `Proofs.lean`).
-  `loop cfg rq n s last` is the retry loop of clusterInvoke with `n` iterations left (20 at entry),
+  `loop pol cfg rq n s last` is the retry loop of clusterInvoke with `n` iterations left (20 at entry),
   `.evs` its chronological list of events: `.rt b sub viaCross snap out` = RoundTrip to backend `b` of
   sub-cluster `sub` with result `out`; `.fin` = HandleForward ended the request (no RoundTrip).
   All theorems hold for every entry state `s` (in particular `RetryTime = 0`), every script of attempt
@@ -13,19 +13,19 @@ open BfeVerif.C07
 /-- **C08 (resend)**: whenever an attempt is followed by another selection of a backend, that attempt was
     a RoundTrip that failed while connecting, or the request is a body-less GET, the cluster's retry
     level is RetryGet and the RoundTrip failed. -/
-theorem C08_resend_only_if (cfg : Cfg) (rq : ReqSpec) (n : Nat) (s : LS) (last : Err) (i : Nat)
-    (hi : i + 1 < (loop cfg rq n s last).evs.length) :
-    ∃ b sub x snap o, (loop cfg rq n s last).evs[i]? = some (.rt b sub x snap o) ∧
+theorem C08_resend_only_if (pol : Policy) (cfg : Cfg) (rq : ReqSpec) (n : Nat) (s : LS) (last : Err) (i : Nat)
+    (hi : i + 1 < (loop pol cfg rq n s last).evs.length) :
+    ∃ b sub x snap o, (loop pol cfg rq n s last).evs[i]? = some (.rt b sub x snap o) ∧
       (o = .connect ∨ (Rt.failed o = true ∧ cfg.rl = 1 ∧ rq.isGET = true ∧ rq.noBody = true)) :=
-  resendOK_index cfg rq _ (loop_resend cfg rq n s last) i hi
+  resendOK_index cfg rq _ (loop_resend pol cfg rq n s last) i hi
 
 /-- **C08 (no body replay)**: a request whose body may already have been consumed (not nil / EofReader /
     finished SPDY body), or that is not a GET, is sent again only after connect errors. -/
-theorem C08_no_body_replay (cfg : Cfg) (rq : ReqSpec) (n : Nat) (s : LS) (last : Err) (i : Nat)
+theorem C08_no_body_replay (pol : Policy) (cfg : Cfg) (rq : ReqSpec) (n : Nat) (s : LS) (last : Err) (i : Nat)
     (hb : rq.noBody = false ∨ rq.isGET = false ∨ cfg.rl ≠ 1)
-    (hi : i + 1 < (loop cfg rq n s last).evs.length) :
-    ∃ b sub x snap, (loop cfg rq n s last).evs[i]? = some (.rt b sub x snap .connect) := by
-  obtain ⟨b, sub, x, snap, o, h1, h2⟩ := C08_resend_only_if cfg rq n s last i hi
+    (hi : i + 1 < (loop pol cfg rq n s last).evs.length) :
+    ∃ b sub x snap, (loop pol cfg rq n s last).evs[i]? = some (.rt b sub x snap .connect) := by
+  obtain ⟨b, sub, x, snap, o, h1, h2⟩ := C08_resend_only_if pol cfg rq n s last i hi
   rcases h2 with h2 | ⟨_, h3, h4, h5⟩
   · subst h2; exact ⟨b, sub, x, snap, h1⟩
   · rcases hb with hb | hb | hb
@@ -36,37 +36,38 @@ theorem C08_no_body_replay (cfg : Cfg) (rq : ReqSpec) (n : Nat) (s : LS) (last :
 /-- **C08 (bound)**: the number of RoundTrip invocations of one clusterInvoke never exceeds
     1 + RetryMax + CrossRetry (counted from the entry RetryTime; 0 attempts if that is negative) nor the
     number of loop iterations. -/
-theorem C08_bound (cfg : Cfg) (rq : ReqSpec) (n : Nat) (s : LS) (last : Err) :
-    (rtCount (loop cfg rq n s last).evs : Int) ≤ max 0 (1 + cfg.rm + cfg.cr - s.retry) ∧
-    rtCount (loop cfg rq n s last).evs ≤ n := by
-  have := loop_bound cfg rq n s last
+theorem C08_bound (pol : Policy) (cfg : Cfg) (rq : ReqSpec) (n : Nat) (s : LS) (last : Err) :
+    (rtCount (loop pol cfg rq n s last).evs : Int) ≤ max 0 (1 + cfg.rm + cfg.cr - s.retry) ∧
+    rtCount (loop pol cfg rq n s last).evs ≤ n := by
+  have := loop_bound pol cfg rq n s last
   omega
 
 /-- the bound at the entry of clusterInvoke (RetryTime = 0, 20 iterations) -/
-theorem C08_bound_entry (cfg : Cfg) (rq : ReqSpec) (g : G) (ch : List Nat) :
-    let r := loop cfg rq 20 ⟨g.cur, g.conn, none, 0, .none, false, rq.script, ch⟩ .nil
+theorem C08_bound_entry (pol : Policy) (cfg : Cfg) (rq : ReqSpec) (g : G) (ch : List Nat) :
+    let r := loop pol cfg rq 20 (entryLS g rq ch) .nil
     (rtCount r.evs : Int) ≤ max 0 (1 + cfg.rm + cfg.cr) ∧ rtCount r.evs ≤ 20 := by
-  have := C08_bound cfg rq 20 ⟨g.cur, g.conn, none, 0, .none, false, rq.script, ch⟩ .nil
+  have := C08_bound pol cfg rq 20 (entryLS g rq ch) .nil
+  rw [show (entryLS g rq ch).retry = 0 from rfl] at this
   simpa using this
 
 /-- **C08 (cross retry goes elsewhere)**: a RoundTrip selected by the in-cluster path goes to the
     sub-cluster the request hashes to, which is not the black hole; a RoundTrip selected by the
     cross-retry path (only if CrossRetry > 0) goes to a different sub-cluster that is not the black hole
     and has weight ≥ 0.  (Stable hash key: with an empty key the code re-draws the hash per Balance call.) -/
-theorem C08_cross_differs (cfg : Cfg) (rq : ReqSpec) (n : Nat) (s : LS) (last : Err)
+theorem C08_cross_differs (pol : Policy) (cfg : Cfg) (rq : ReqSpec) (n : Nat) (s : LS) (last : Err)
     (b sub : Nat) (x : Bool) (snap : Nat → Int) (o : Rt)
-    (he : Ev.rt b sub x snap o ∈ (loop cfg rq n s last).evs) :
+    (he : Ev.rt b sub x snap o ∈ (loop pol cfg rq n s last).evs) :
     (x = false → sub = primary cfg ∧ (cfg.subs.getD sub default).black = false) ∧
     (x = true → cfg.cr > 0 ∧ sub ≠ primary cfg ∧
       ∃ sc, cfg.subs[sub]? = some sc ∧ sc.black = false ∧ sc.weight ≥ 0) :=
-  loop_sub cfg rq n s last _ he
+  loop_sub pol cfg rq n s last _ he
 
 /-- **C08 (in-cluster budget)**: at most 1 + RetryMax RoundTrips are selected by the in-cluster path; together
     with `C08_cross_differs` (cross attempts leave the hashed sub-cluster): the hashed sub-cluster receives
     at most 1 + RetryMax attempts, every further attempt goes elsewhere. -/
-theorem C08_in_cluster_bound (cfg : Cfg) (rq : ReqSpec) (n : Nat) (s : LS) (last : Err) :
-    (inCount (loop cfg rq n s last).evs : Int) ≤ max 0 (1 + cfg.rm - s.retry) := by
-  have := loop_in_bound cfg rq n s last
+theorem C08_in_cluster_bound (pol : Policy) (cfg : Cfg) (rq : ReqSpec) (n : Nat) (s : LS) (last : Err) :
+    (inCount (loop pol cfg rq n s last).evs : Int) ≤ max 0 (1 + cfg.rm - s.retry) := by
+  have := loop_in_bound pol cfg rq n s last
   omega
 
 /-- the model's retry rule in the vocabulary of the extracted table -/
@@ -87,20 +88,47 @@ theorem C08_switch_as_modelled :
     BfeVerif.Generated.C08.retryConnect = 0 := by
   decide
 
+/-- **C08 (nothing resends outside clusterInvoke's loop; regenerated facts)**: `ServeHTTP` calls `clusterInvoke`
+    exactly once, not in a loop, and no `goto` label precedes the call (an error from clusterInvoke becomes the
+    500 response); `bfe_http.Transport.RoundTrip` dials once and sends once, `bfe_fcgi.Transport.RoundTrip` sends
+    once, the h2c wrapper calls the x/net transport once, none of them in a loop; the h2c wrapper hands the
+    request body over without a `GetBody`; the x/net version is the one whose rule is transcribed. -/
+theorem C08_no_resend_outside :
+    BfeVerif.Generated.C08.serveHTTPInvokeCalls = 1 ∧
+    BfeVerif.Generated.C08.serveHTTPInvokeInLoop = false ∧
+    BfeVerif.Generated.C08.serveHTTPLabelBeforeInvoke = false ∧
+    BfeVerif.Generated.C08.httpRoundTripSends = 1 ∧ BfeVerif.Generated.C08.httpRoundTripDials = 1 ∧
+    BfeVerif.Generated.C08.httpRoundTripInLoop = false ∧
+    BfeVerif.Generated.C08.fcgiRoundTripSends = 1 ∧ BfeVerif.Generated.C08.fcgiRoundTripInLoop = false ∧
+    BfeVerif.Generated.C08.h2cRoundTripSends = 1 ∧ BfeVerif.Generated.C08.h2cRoundTripInLoop = false ∧
+    BfeVerif.Generated.C08.h2cSetsBody = true ∧ BfeVerif.Generated.C08.h2cSetsGetBody = false ∧
+    BfeVerif.Generated.C08.xnetVersion = "v0.0.0-20201021035429-f5854403a974" := by
+  decide
+
+/-- **C08 (the h2c transport's internal retry never replays a body)**: with the request bfe hands to the x/net
+    transport (no GetBody — `C08_no_resend_outside`), the transport resends on its own only when the error is
+    one of its "request was not processed" errors AND (the request has no body OR the body has not started to
+    be written); it never builds a fresh body.  So a body that may have been consumed is not resent there
+    either; such resends are invisible to clusterInvoke's budget (x/net caps them at 6 per RoundTrip). -/
+theorem C08_h2c_no_body_replay (canRetryErr bodyNil afterBodyWrite : Bool) :
+    let r := h2ShouldRetry canRetryErr bodyNil BfeVerif.Generated.C08.h2cSetsGetBody afterBodyWrite
+    r ≠ .fresh ∧ (r = .same → canRetryErr = true ∧ (bodyNil = true ∨ afterBodyWrite = false)) := by
+  cases canRetryErr <;> cases bodyNil <;> cases afterBodyWrite <;> decide
+
 /-! Non-vacuity: the bound is attained, a GET is retried after a read error, a POST is not. -/
-def cfg2 : Cfg := ⟨1, 1, 1, 0, [⟨"a", 1, false, [⟨true, 1⟩]⟩, ⟨"b", 0, false, [⟨true, 1⟩]⟩]⟩
-def entry (rq : ReqSpec) : LS := ⟨initCur cfg2.subs, fun _ => 0, none, 0, .none, false, rq.script, []⟩
+def cfg2 : Cfg := ⟨1, 1, 1, 0, 0, 0, [⟨"a", 1, false, [⟨true, 1⟩]⟩, ⟨"b", 0, false, [⟨true, 1⟩]⟩]⟩
+def entry (rq : ReqSpec) : LS := entryLS (G.init cfg2 1) rq []
 def allConnect : List Attempt := [⟨.goon, .connect⟩, ⟨.goon, .connect⟩, ⟨.goon, .connect⟩, ⟨.goon, .connect⟩]
 
-example : rtCount (loop cfg2 ⟨false, false, allConnect⟩ 20 (entry ⟨false, false, allConnect⟩) .nil).evs = 3 := by
+example : rtCount (loop realPolicy cfg2 ⟨false, false, allConnect⟩ 20 (entry ⟨false, false, allConnect⟩) .nil).evs = 3 := by
   decide
-example : (loop cfg2 ⟨false, false, allConnect⟩ 20 (entry ⟨false, false, allConnect⟩) .nil).err = .toomany := by
+example : (loop realPolicy cfg2 ⟨false, false, allConnect⟩ 20 (entry ⟨false, false, allConnect⟩) .nil).err = .toomany := by
   decide
-example : rtCount (loop cfg2 ⟨true, true, [⟨.goon, .rhdr⟩]⟩ 20 (entry ⟨true, true, [⟨.goon, .rhdr⟩]⟩) .nil).evs = 2 := by
+example : rtCount (loop realPolicy cfg2 ⟨true, true, [⟨.goon, .rhdr⟩]⟩ 20 (entry ⟨true, true, [⟨.goon, .rhdr⟩]⟩) .nil).evs = 2 := by
   decide
-example : rtCount (loop cfg2 ⟨false, true, [⟨.goon, .rhdr⟩]⟩ 20 (entry ⟨false, true, [⟨.goon, .rhdr⟩]⟩) .nil).evs = 1 := by
+example : rtCount (loop realPolicy cfg2 ⟨false, true, [⟨.goon, .rhdr⟩]⟩ 20 (entry ⟨false, true, [⟨.goon, .rhdr⟩]⟩) .nil).evs = 1 := by
   decide
-example : rtCount (loop cfg2 ⟨true, false, [⟨.goon, .write⟩]⟩ 20 (entry ⟨true, false, [⟨.goon, .write⟩]⟩) .nil).evs = 1 := by
+example : rtCount (loop realPolicy cfg2 ⟨true, false, [⟨.goon, .write⟩]⟩ 20 (entry ⟨true, false, [⟨.goon, .write⟩]⟩) .nil).evs = 1 := by
   decide
 
 end BfeVerif.C08
